@@ -2,7 +2,8 @@
 deterministic scheduler and compare with the Lean LTS (`Model/Queue.lean`, driver model "queue").
 
 A case:
-  {cap, max_enq, timeout(bool), threads:[prog], sched:{kind:'random'|'pct', seed} | {kind:'replay', choices:[...]}}
+  {cap, max_enq, timeout(bool), threads:[prog], sched:{kind:'random'|'pct', seed} | {kind:'replay', choices:[...]},
+   backend?: one of lib_queue_backends.BACKENDS (absent = IteratorQueue(cap), the default buffer)}
   prog = {kind:'producer', src:[v | 'fail'], ret:r} | {kind:'get'} | {kind:'batch', max:m, block:b}
        | {kind:'stopper', exc:'ValueError'} | {kind:'stopper'}
 The impl observation lists, step by step, the choice made, the label executed and the set of
@@ -141,9 +142,18 @@ def run_real(case, max_steps=6000):
     o, info = exc_obs(e, injected)
     outcomes[i] = dict(received=got, outcome=o, exc=info)
 
-  with shim.patched(sched, [iter_utils]):
-    q = iter_utils.IteratorQueue(case['cap'], max_enqueuer=case['max_enq'],
-                                 timeout=TIMEOUT_SECS if case['timeout'] else None)
+  backend = case.get('backend')      # round 10: the buffer under the queue is a constructor parameter (lib_queue_backends)
+  if backend:
+    from harness import lib_queue_backends as lqb
+    patch = lqb.patched(sched, [iter_utils])
+  else:
+    patch = shim.patched(sched, [iter_utils])
+  with patch:
+    if backend:
+      q = lqb.make_queue(iter_utils, sched, case, TIMEOUT_SECS if case['timeout'] else None)
+    else:
+      q = iter_utils.IteratorQueue(case['cap'], max_enqueuer=case['max_enq'],
+                                   timeout=TIMEOUT_SECS if case['timeout'] else None)
 
     def producer(i, src):
       try:
@@ -419,6 +429,8 @@ def model_guided(ctx, configs, seed, unreachable=None, oracle=None, walks=None, 
     for sch, end in zip(cv['schedules'], cv['ends']):
       case = dict(cap=cfg['cap'], max_enq=cfg['max_enq'], timeout=cfg['timeout'], threads=cfg['threads'],
                   sched=dict(kind='replay', choices=sch), model_guided=dict(config=k, end=end))
+      if cfg.get('backend'):
+        case['backend'] = cfg['backend']
       cases.append(case)
       runs.append(run_real(case))
       ends.append(end)
